@@ -233,6 +233,7 @@ def enumerate_histories(ctx, label, names, items, depth, kinds, simulate=None, s
         if res.violated:
             raise common.MachineryError("Scope %s: spec property %s violated" % (label, res.violated))
         ctx.add_tlc(res, label)
+        exports.sort(key=lambda e: json.dumps(e["prog"]))
         return exports
     finally:
         rmtree(wd)
